@@ -350,6 +350,10 @@ pub fn hf_json(rng: &mut Rng, variant: usize) -> Vec<u8> {
             }
         }
     }
+    if rng.chance(1, 2) {
+        // an added token that legitimately sits right above the vocabulary: a renumbered one must not get its id
+        added.push_str(r#",{"id":11,"content":"<t>","single_word":false,"lstrip":false,"rstrip":false,"normalized":false,"special":true}"#);
+    }
     if odd(rng) {
         added.push_str(r#",{"id":9,"content":"","single_word":false,"lstrip":false,"rstrip":false,"normalized":false,"special":true}"#);
     }
